@@ -47,7 +47,8 @@ SPEC = {
             "gRPC handlers; strict label matching on/off, location labels, placement rules on/off, initial cluster "
             "version) + 0-4 registrations + 5-60 random ops out of put / gput / ghb / labels (merge or force) / remove "
             "(with/without physically-destroyed) / up / bury / check / weight / rmtomb / region placement on 1-3 of the "
-            "stores, over 5 store ids (+ id 0 and an unknown id), 4 addresses, 9 versions (incl. unparsable and empty), "
+            "stores (non-leader peers are learners 2 times in 5) / restart (bare cluster: fresh cache + LoadClusterInfo on "
+            "the same storage), over 5 store ids (+ id 0 and an unknown id), 4 addresses, 9 versions (incl. unparsable and empty), "
             "5 label keys (one differing in case only); every op carries a failure mask (bit i = the i-th store write of "
             "the op fails), non-zero for 1 op in 4; 1 sequence in 8 also registers stores born offline / tombstone / "
             "destroyed (malformed stream); non-trivial = some store reaches tombstone and some op is rejected or hits an "
